@@ -103,3 +103,20 @@ Theorem C01_map_keys_converge {V O E} (vo : valops V O E) (H : list (oprec (mop 
   forall (s1 s2 : cmap V) (K : gset nat), mapreach vo H s1 K -> mapreach vo H s2 K -> kabs s1 = kabs s2.
 Proof. exact (map_keys_converge_api vo H). Qed.
 Print Assumptions C01_map_keys_converge.
+
+(** * Map<K, Orswot<M>>: full convergence under causal op-based delivery (proofs/MapOrswot.v):
+    equal knowledge gives the same keys, map clock, entry clocks (the remove contexts of [get]),
+    pending table, and under every key the same members with the same witness clocks (the
+    remove contexts of the nested [contains]/[iter]) *)
+From Crdt Require Import spec.MapOrswotSpec proofs.MapOrswot.
+Theorem C01_mapor_converge (H : list (oprec (mop oop))) (s1 s2 : cmap orswot) (K : gset nat) :
+  mohist_ok H -> moreach H s1 K -> moreach H s2 K ->
+  (forall k, mo_state_entries s1 k = mo_state_entries s2 k) /\
+  dom (mentries s1) = dom (mentries s2) /\
+  mclock s1 = mclock s2 /\
+  (forall k, mentry_clock s1 k = mentry_clock s2 k) /\
+  mdeferred s1 = mdeferred s2 /\
+  (forall k e1 e2, mentries s1 !! k = Some e1 -> mentries s2 !! k = Some e2 ->
+     eclock e1 = eclock e2 /\ oentries (eval e1) = oentries (eval e2)).
+Proof. exact (mapor_converge H s1 s2 K). Qed.
+Print Assumptions C01_mapor_converge.
